@@ -115,130 +115,148 @@ def check_exporter(case, kind, tree, labels, acc):
         with warnings.catch_warnings():
             warnings.simplefilter("ignore")
             exporter = RenderTreeGraph(start, **kwargs)
-    lines = list(exporter)
     ctx = "%s start=%s stop=%s hide=%s maxlevel=%r shape=%s names=%r" % (kind, case["start"], case["stop"], case["hide"], maxlevel, case["shape"], case["names"])
-    indent = " " * case.get("indent", 4)
-    header = "%s %s {" % (case.get("graph", "digraph"), case.get("name", "tree"))
-    if not lines or lines[0] != header:
-        raise Violation("header", "%s: first line %r expected %r" % (ctx, lines[:1], header))
-    if lines[-1] != "}":
-        raise Violation("closing-brace", "%s: last line %r" % (ctx, lines[-1]))
-    body = lines[1:-1]
-    options = case.get("options") or []
-    want_opts = [indent + o for o in options]
-    if body[: len(options)] != want_opts:
-        raise Violation("options", "%s: option lines %r expected %r" % (ctx, body[: len(options)], want_opts))
-    body = body[len(options):]
-    declared, edges, kf = expected_structure(tree, start, stop_ids, hide_ids, maxlevel)
-    if len(body) < len(declared):
-        raise Violation("node-statements", "%s: %d statements for %d declared nodes: %r" % (ctx, len(body), len(declared), body))
-    # node statements in pre-order
-    ident = {}
-    by_ident = {}
-    nodename = funcs.get("nodenamefunc")
-    nodeattr = funcs.get("nodeattrfunc")
-    for node, line in zip(declared, body):
-        if not line.startswith(indent + '"'):
-            raise Violation("node-statement", "%s: %r does not start with the indent and a quoted identifier" % (ctx, line))
-        value, end = parse_quoted(line, len(indent))
-        rest = line[end:]
-        if kind == "UniqueDotExporter" and nodename is None:
-            if value in by_ident:
-                raise Violation("unique-ids", "%s: identifier %r used for two nodes" % (ctx, value))
-            if nodeattr is None:
-                if not (rest.startswith(" [") and rest.endswith("];")):
-                    raise Violation("node-statement", "%s: %r" % (ctx, line))
+
+    def verify(lines, known_ident, phase):
+        """Complete oracle for one iteration of the exporter against the CURRENT tree and admission sets."""
+        indent = " " * case.get("indent", 4)
+        header = "%s %s {" % (case.get("graph", "digraph"), case.get("name", "tree"))
+        if not lines or lines[0] != header:
+            raise Violation("header", "%s: first line %r expected %r" % (ctx, lines[:1], header))
+        if lines[-1] != "}":
+            raise Violation("closing-brace", "%s: last line %r" % (ctx, lines[-1]))
+        body = lines[1:-1]
+        options = case.get("options") or []
+        want_opts = [indent + o for o in options]
+        if body[: len(options)] != want_opts:
+            raise Violation("options", "%s: option lines %r expected %r" % (ctx, body[: len(options)], want_opts))
+        body = body[len(options):]
+        declared, edges, kf = expected_structure(tree, start, stop_ids, hide_ids, maxlevel)
+        if len(body) < len(declared):
+            raise Violation("node-statements", "%s: %d statements for %d declared nodes: %r" % (ctx, len(body), len(declared), body))
+        # node statements in pre-order
+        ident = {}
+        by_ident = {}
+        nodename = funcs.get("nodenamefunc")
+        nodeattr = funcs.get("nodeattrfunc")
+        for node, line in zip(declared, body):
+            if not line.startswith(indent + '"'):
+                raise Violation("node-statement", "%s: %r does not start with the indent and a quoted identifier" % (ctx, line))
+            value, end = parse_quoted(line, len(indent))
+            rest = line[end:]
+            if kind == "UniqueDotExporter" and nodename is None:
+                if value in by_ident:
+                    raise Violation("unique-ids", "%s: identifier %r used for two nodes" % (ctx, value))
+                if nodeattr is None:
+                    if not (rest.startswith(" [") and rest.endswith("];")):
+                        raise Violation("node-statement", "%s: %r" % (ctx, line))
+                else:
+                    attr = nodeattr(node)
+                    if rest != (" [%s];" % attr if attr is not None else ";"):
+                        raise Violation("node-attr", "%s: %r expected attr %r" % (ctx, line, attr))
             else:
-                attr = nodeattr(node)
+                want = str(nodename(node)) if nodename else str(node.name)
+                if value != want:
+                    raise Violation("node-identifier", "%s: identifier decodes to %r, expected %r (line %r)" % (ctx, value, want, line))
+                if line[len(indent):end] != '"%s"' % esc(want):
+                    raise Violation("escaping", "%s: identifier written as %r expected %r" % (ctx, line[len(indent):end], '"%s"' % esc(want)))
+                attr = nodeattr(node) if nodeattr else ('label="%s"' % (node.name,) if kind == "UniqueDotExporter" else None)
                 if rest != (" [%s];" % attr if attr is not None else ";"):
                     raise Violation("node-attr", "%s: %r expected attr %r" % (ctx, line, attr))
-        else:
-            want = str(nodename(node)) if nodename else str(node.name)
-            if value != want:
-                raise Violation("node-identifier", "%s: identifier decodes to %r, expected %r (line %r)" % (ctx, value, want, line))
-            if line[len(indent):end] != '"%s"' % esc(want):
-                raise Violation("escaping", "%s: identifier written as %r expected %r" % (ctx, line[len(indent):end], '"%s"' % esc(want)))
-            attr = nodeattr(node) if nodeattr else ('label="%s"' % (node.name,) if kind == "UniqueDotExporter" else None)
-            if rest != (" [%s];" % attr if attr is not None else ";"):
-                raise Violation("node-attr", "%s: %r expected attr %r" % (ctx, line, attr))
-        ident[id(node)] = line[len(indent):end]
-        by_ident[line[len(indent):end]] = node
-    if len(by_ident) != len(declared):
-        raise Violation("identifier-collision", "%s: declared nodes share identifiers" % ctx)
-    # edge statements
-    edge_lines = body[len(declared):]
-    edgeattr = funcs.get("edgeattrfunc")
-    edgetype = funcs.get("edgetypefunc")
-    want_edges = collections.Counter()
-    for p, c in edges:
-        a = edgeattr(p, c) if edgeattr else None
-        t = edgetype(p, c) if edgetype else "->"
-        want_edges["%s%s %s %s%s;" % (indent, ident[id(p)], t, ident[id(c)], " [%s]" % a if a is not None else "")] += 1
-    got_edges = collections.Counter(edge_lines)
-    missing = want_edges - got_edges
-    extra = got_edges - want_edges
-    if missing:
-        raise Violation("missing-edge", "%s: missing edge statements %r; got %r" % (ctx, sorted(missing), edge_lines))
-    if extra:
-        # classify: only edges from a declared parent to a stopped (undeclared) child may be tolerated (KF-C12-1)
-        per_parent = collections.Counter()
-        fresh = set()
-        for line, count in extra.items():
-            if count != 1 and kind == "UniqueDotExporter":
-                raise Violation("extra-edge", "%s: repeated edge %r" % (ctx, line))
-            if not line.startswith(indent + '"'):
-                raise Violation("extra-line", "%s: unexpected line %r" % (ctx, line))
-            _, end = parse_quoted(line, len(indent))
-            src = line[len(indent):end]
-            nxt = line.find('"', end)
-            if nxt < 0:
-                raise Violation("extra-line", "%s: unexpected line %r" % (ctx, line))
-            value2, end2 = parse_quoted(line, nxt)
-            dst = line[nxt:end2]
-            if src not in by_ident:
-                raise Violation("undeclared-edge-source", "%s: edge %r starts at an undeclared identifier" % (ctx, line))
-            parent = by_ident[src]
-            if dst in by_ident:
-                raise Violation("extra-edge", "%s: unexpected edge %r between declared nodes" % (ctx, line))
-            cands = [c for p, c in kf if p is parent]
-            if kind == "UniqueDotExporter" and nodename is None:
-                if dst in fresh:
-                    raise Violation("undeclared-edge-target", "%s: undeclared identifier %r used twice" % (ctx, dst))
-                fresh.add(dst)
-                per_parent[id(parent)] += count
-            else:
-                names = [str(nodename(c)) if nodename else str(c.name) for c in cands]
-                if value2 not in names:
-                    raise Violation("undeclared-edge-target", "%s: edge %r names an undeclared node that is not a stopped child of its source" % (ctx, line))
-                per_parent[id(parent)] += count
-        for pid, count in per_parent.items():
-            allowed = sum(1 for p, c in kf if id(p) == pid)
-            if count > allowed:
-                raise Violation("undeclared-edge-target", "%s: %d edges to undeclared nodes from one parent, only %d stopped children" % (ctx, count, allowed))
-        acc.known_finding("KF-C12-1", dict(case, exporters=[kind]))
+            ident[id(node)] = line[len(indent):end]
+            if known_ident.get(id(node), ident[id(node)]) != ident[id(node)]:
+                raise Violation("identifier-stability", "%s [%s]: node %r was %s in an earlier iteration of the same exporter and is %s now" % (ctx, phase, node.name, known_ident[id(node)], ident[id(node)]))
+            by_ident[line[len(indent):end]] = node
+        if len(by_ident) != len(declared):
+            raise Violation("identifier-collision", "%s: declared nodes share identifiers" % ctx)
+        # edge statements
+        edge_lines = body[len(declared):]
+        edgeattr = funcs.get("edgeattrfunc")
+        edgetype = funcs.get("edgetypefunc")
+        want_edges = collections.Counter()
+        for p, c in edges:
+            a = edgeattr(p, c) if edgeattr else None
+            t = edgetype(p, c) if edgetype else "->"
+            want_edges["%s%s %s %s%s;" % (indent, ident[id(p)], t, ident[id(c)], " [%s]" % a if a is not None else "")] += 1
+        got_edges = collections.Counter(edge_lines)
+        missing = want_edges - got_edges
+        extra = got_edges - want_edges
+        if missing:
+            raise Violation("missing-edge", "%s: missing edge statements %r; got %r" % (ctx, sorted(missing), edge_lines))
+        if extra:
+            # classify: only edges from a declared parent to a stopped (undeclared) child may be tolerated (KF-C12-1)
+            per_parent = collections.Counter()
+            fresh = set()
+            for line, count in extra.items():
+                if count != 1 and kind == "UniqueDotExporter":
+                    raise Violation("extra-edge", "%s: repeated edge %r" % (ctx, line))
+                if not line.startswith(indent + '"'):
+                    raise Violation("extra-line", "%s: unexpected line %r" % (ctx, line))
+                _, end = parse_quoted(line, len(indent))
+                src = line[len(indent):end]
+                nxt = line.find('"', end)
+                if nxt < 0:
+                    raise Violation("extra-line", "%s: unexpected line %r" % (ctx, line))
+                value2, end2 = parse_quoted(line, nxt)
+                dst = line[nxt:end2]
+                if src not in by_ident:
+                    raise Violation("undeclared-edge-source", "%s: edge %r starts at an undeclared identifier" % (ctx, line))
+                parent = by_ident[src]
+                if dst in by_ident:
+                    raise Violation("extra-edge", "%s: unexpected edge %r between declared nodes" % (ctx, line))
+                cands = [c for p, c in kf if p is parent]
+                if kind == "UniqueDotExporter" and nodename is None:
+                    if dst in fresh:
+                        raise Violation("undeclared-edge-target", "%s: undeclared identifier %r used twice" % (ctx, dst))
+                    fresh.add(dst)
+                    per_parent[id(parent)] += count
+                else:
+                    names = [str(nodename(c)) if nodename else str(c.name) for c in cands]
+                    if value2 not in names:
+                        raise Violation("undeclared-edge-target", "%s: edge %r names an undeclared node that is not a stopped child of its source" % (ctx, line))
+                    per_parent[id(parent)] += count
+            for pid, count in per_parent.items():
+                allowed = sum(1 for p, c in kf if id(p) == pid)
+                if count > allowed:
+                    raise Violation("undeclared-edge-target", "%s: %d edges to undeclared nodes from one parent, only %d stopped children" % (ctx, count, allowed))
+            acc.known_finding("KF-C12-1", dict(case, exporters=[kind]))
+        return declared, edges, ident, by_ident
+
+    lines = list(exporter)
+    declared, edges, ident, by_ident = verify(lines, {}, "first iteration")
+    indent = " " * case.get("indent", 4)
+    options = case.get("options") or []
     # repeated iteration gives the same lines (identifier stability)
     if list(exporter) != lines:
         raise Violation("re-iteration", "%s: second iteration differs" % ctx)
-    if kind == "UniqueDotExporter" and nodename is None and declared:
+    if declared and case.get("phases", True):
         # a second iteration started while the first one is between its node statements and its edges
         it1 = iter(exporter)
         head = [next(it1) for _ in range(1 + len(options) + len(declared))]
         second = list(exporter)
         if head + list(it1) != lines or second != lines:
-            raise Violation("identifier-stability", "%s: interleaved iterations of one exporter disagree about identifiers" % ctx)
-        # the tree grows between two iterations of the same exporter: nodes keep their identifiers
-        extra = Node("extra-first-child")
+            raise Violation("identifier-stability", "%s: interleaved iterations of one exporter disagree" % ctx)
+        known = dict(ident)
+        # the same exporter object after the tree has grown, and after the admitted set has shrunk
+        # (stateful filter_/stop predicates are legitimate): every iteration is judged against the current state
+        extra = Node("extra-first-child-%d" % len(tree))
         index_of[id(extra)] = len(tree)
+        tree.append(extra)
         start.children = (extra,) + start.children
         try:
-            declared2, _, _ = expected_structure(tree + [extra], start, stop_ids, hide_ids, maxlevel)
-            body2 = list(exporter)[1 + len(options):]
-            for node, line in zip(declared2, body2):
-                _, end = parse_quoted(line, len(indent))
-                if id(node) in ident and ident[id(node)] != line[len(indent):end]:
-                    raise Violation("identifier-stability", "%s: node %r is %s in the first export and %s after a sibling was added" % (ctx, node.name, ident[id(node)], line[len(indent):end]))
+            known.update(verify(list(exporter), known, "after a first child was added")[2])
+            victim = declared[-1]
+            if case["hide"] and victim is not start:
+                hide_ids.add(id(victim))
+                verify(list(exporter), known, "after filter_ started to hide node %r" % (victim.name,))
+                hide_ids.discard(id(victim))
+            if case["stop"] and victim is not start:
+                stop_ids.add(id(victim))
+                verify(list(exporter), known, "after stop started to cut at node %r" % (victim.name,))
+                stop_ids.discard(id(victim))
         finally:
             extra.parent = None
+            tree.pop()
     return lines, declared, edges
 
 
@@ -369,7 +387,7 @@ def random_cases(draw, exporters=("DotExporter", "UniqueDotExporter", "RenderTre
 def plan(tier, seed):
     nshards = 16
     max_nodes = QUICK_N if tier == "quick" else THOROUGH_N
-    examples = 80 if tier == "quick" else 1200
+    examples = 150 if tier == "quick" else 1200
     tasks = [{"engine": "enum", "max_nodes": max_nodes, "index": i, "count": nshards * 2} for i in range(nshards * 2)]
     tasks += [{"engine": "hyp", "examples": examples, "seed": seed * 1000 + i} for i in range(nshards)]
     return tasks
